@@ -234,6 +234,21 @@ fn sec_calls<E: EndianParse>(f: &ElfBytes<'_, E>, s: &SectionHeader, c: &mut Cho
     if let Some(it) = fold!(st, f.section_data_as_notes(s)) {
         note_items(it, n, st);
     }
+    // the provided Iterator methods called DIRECTLY on the concrete note iterator (an override would be picked here)
+    if s.sh_size <= 4096 {
+        if let Some(it) = fold!(st, f.section_data_as_notes(s)) {
+            st.sink.0 = st.sink.0.wrapping_add(it.last().is_some() as u64);
+        }
+        if let Some(it) = fold!(st, f.section_data_as_notes(s)) {
+            st.sink.0 = st.sink.0.wrapping_add(it.count() as u64);
+        }
+        if let Some(mut it) = fold!(st, f.section_data_as_notes(s)) {
+            let _ = it.size_hint();
+            let _ = it.nth(c.below(3) as usize);
+            let _ = it.nth(usize::MAX);
+            let _ = it.next();
+        }
+    }
 }
 
 fn seg_calls<E: EndianParse>(f: &ElfBytes<'_, E>, p: &ProgramHeader, st: &mut WalkStats, n: u64) {
@@ -363,6 +378,28 @@ fn deep<'d, E: EndianParse + core::fmt::Debug>(f: &ElfBytes<'d, E>, data: &'d [u
         };
         if let Some(Some(h)) = fold!(st, f.section_header_by_name(name)) {
             st.sink.0 = st.sink.0.wrapping_add(h.sh_size);
+        }
+    }
+    // an existing name with its first one or two bytes replaced by a two-byte character (byte-offset arithmetic on
+    // names must respect character boundaries); built in a stack buffer, the walk stays allocation-free
+    if let Some((Some(sh), Some(strs))) = fold!(st, f.section_headers_with_strtab()) {
+        for k in 0..sh.len().min(4) {
+            if let Some(h) = fold!(st, sh.get(k)) {
+                if let Ok(nm) = strs.get_raw(h.sh_name as usize) {
+                    for drop in 1..5usize {
+                        let mut buf = [0u8; 48];
+                        if nm.len() > drop && nm.len() + 2 <= buf.len() {
+                            buf[0] = 0xc3;
+                            buf[1] = 0xa9;
+                            let l = nm.len() - drop;
+                            buf[2..2 + l].copy_from_slice(&nm[drop..]);
+                            if let Ok(q) = core::str::from_utf8(&buf[..2 + l]) {
+                                let _ = fold!(st, f.section_header_by_name(q));
+                            }
+                        }
+                    }
+                }
+            }
         }
     }
     // names that tools treat specially (name-specific code paths: debug sections and their legacy compressed
